@@ -73,6 +73,7 @@ def run(check, prog):
     c01.f6_copy_metadata(check, prog)
     center_priors(check, prog)
     centre_plane(check, prog)
+    centre_pixel_sizes(check, prog)
     center_priors_structure(check, prog)
     subimage(check, prog)
     subimage_shapes(check, prog)
@@ -596,6 +597,48 @@ def center_priors(check, prog):
                   fail_detail='centre terms: %s' % [show(c)[:120] for c in cen])
 
 
+def centre_pixel_sizes(check, prog):
+    """T9c: the Hough vote knows the pixel sizes.  The Sobel derivatives are taken
+    per pixel; each pixel votes along a line through it in the direction of the
+    gradient.  For the fringes of a sphere (circles in space) these lines pass
+    through the centre only if the direction is the *physical* gradient's, which in
+    pixel units is (g_x / s_x**2, g_y / s_y**2): with s_x != s_y the per-pixel
+    gradient points at the evolute of an ellipse, not at its centre (found 31
+    pixels off at s_y = s_x / 2, silently, and `make_center_priors` centres a
+    one-pixel-wide prior there).  Decided: the pair of derivative arrays handed to
+    `hough` depends on both the x step and the y step of the image (a difference
+    of its x coordinates and one of its y coordinates); the exact weighting is not
+    checked beyond that."""
+    q = 'holopy.core.process.centerfinder.center_find'
+    fd = prog.func(q)
+    loc = prog.loc(q, fd)
+    it = Interp(prog, max_depth=1, opaque=[
+        'holopy.core.process.centerfinder.image_gradient'])
+    it.analyze(q)
+    hs = [c for c in it.calls if c['name'].endswith('centerfinder.hough')]
+    if len(hs) != 1:
+        return                      # centre_plane reports the missing vote
+    args = list(hs[0]['args'][:2])
+
+    def steps(axis):
+        out = []
+        for a in args:
+            for x in subterms(a):
+                if x[0] == 'call' and x[1] in ('numpy.diff', 'numpy.gradient',
+                                               'holopy.core.metadata.get_spacing',
+                                               'holopy.core.process.fourier.get_spacing'):
+                    if any(y[0] == 'attr' and y[2] == axis for y in subterms(x)) or \
+                            x[1].endswith('get_spacing'):
+                        out.append(x)
+        return out
+    ok = bool(steps('x')) and bool(steps('y'))
+    check.require(ok, 'T9-centre-pixel-sizes', 'center_find -> hough derivatives',
+                  'the voting directions are formed with the x and the y pixel size',
+                  loc, fail_detail='hough(%s, %s): per-pixel derivatives as they come '
+                  'from the Sobel operator; on non-square pixels the lines do not '
+                  'pass through the centre' % tuple(show(a)[:50] for a in args))
+
+
 def centre_plane(check, prog):
     """T9: the centre finder works on the x-y plane of the image it is given,
     whatever other axes the image has and wherever they sit.  calc_holo returns a
@@ -626,6 +669,11 @@ def centre_plane(check, prog):
             inner = set(subterms(x[1]))
             if image not in inner and not any(y[0] in ('phi', 'loop') for y in inner):
                 continue
+            if x[1][0] == 'call' and x[1][1] == 'numpy.diff' and any(
+                    y[0] == 'attr' and y[2] in ('x', 'y') and y[1] != image
+                    or y[0] == 'attr' and y[2] in ('x', 'y')
+                    for y in subterms(x[1])):
+                continue        # the first step of a coordinate axis, not a plane
             if x[1][0] == 'attr' and x[1][2] in ('dims', 'shape', 'coords', 'sizes'):
                 continue        # image.dims[0]: a name, not a slab of values
             key = x[2]
